@@ -120,11 +120,14 @@ CLAIMS = {
    technique="Lean 4 proof (byte-level symbolic execution of the lock on the VM model, refinement to the C02 pure spec) + verdict-matrix oracle + differential correspondence of builder bytes and runs",
    design="§5 C13"),
  'C14': dict(
-   text="Proved for all certificates: unpack(pack(c)) = c and |pack(c)| = 105 for every 32-byte delegate key, begin / end below 2^32 (the builder admits < 2^31), either may-delegate flag and every 64-byte signature; byte 40 of the signed preimage is 0xff exactly for delegable certificates. "
-        "Tie and exactness: Certificate.pack / unpack and the bytes of make_delegate_key_lock / make_delegate_key_chain_lock vs the model's builders; the acceptance condition of both locks is judged on the implementation alone by an independent oracle "
-        "(per-link signer, begin <= t < end, not ahead of the clock by the slack, may-delegate on every non-final link, final delegate signs the sigfields) over chains of length 1..6, all window boundaries (t = begin, end-1, end), all may-delegate patterns, every single-field corruption and cross-chain splices; every run is also executed on the model VM.",
-   note="the exact acceptance condition of the two delegation locks is decided by oracle + model correspondence, not by a Lean theorem about the lock bytes (theorem coverage: serialisation clause, and the window instructions via C16.1).",
-   technique="Lean 4 proof (serialisation round trip for all field values) + acceptance oracle on the implementation + differential correspondence of builder bytes and runs",
+   text="Proved by byte-level symbolic execution of make_delegate_key_lock on the VM model (27 instructions, big-step rules per instruction) for every root key, certificate fields, certificate signature, final signature, cache, timestamp, clock, slack threshold, limits and (arbitrary) crypto parameters, no signature-extension plugin: "
+        "the run ends with exactly delegateSpec - an error unless t is accepted against begin, not accepted against end, and the certificate signature verifies under the root over (delegate || begin || end || may); then exactly the C02 verdict of the final signature under the delegate key (delegateKeyLock_run); "
+        "hence the lock accepts [pack c, sig] iff c.begin <= t < c.end, t is not ahead of the clock by the slack or more, c is signed by the root key, and sig passes C02 under c.delegate (delegateKeyLock_accepts_iff / _accepts_cert, using C16.1 and window_iff). "
+        "Serialisation: unpack(pack(c)) = c and |pack(c)| = 105 for every 32-byte delegate key, begin / end below 2^32, either may-delegate flag and every 64-byte signature (cert_pack_unpack, cert_may_byte). "
+        "Tie and exactness on the implementation: Certificate.pack / unpack and the bytes of both lock builders vs the model's; the acceptance condition of both locks is judged on the implementation alone by an independent oracle "
+        "(per-link signer, begin <= t < end, clock slack, may-delegate on every non-final link, final delegate signs the sigfields) over chains of length 1..6, all window boundaries (t = begin, end-1, end), all may-delegate patterns, every single-field corruption and cross-chain splices; every run is also executed on the model VM.",
+   note="the chain lock (recursive def 0) has no Lean theorem about its bytes: its acceptance condition is decided by the oracle + model correspondence. The single-certificate theorem assumes the resource side conditions it states (105-byte items fit, 6 stack slots) and a 105-byte certificate; other lengths end in the SPLIT / CHECK_SIG_STACK errors exercised by the correspondence.",
+   technique="Lean 4 proof (byte-level big-step symbolic execution of the lock on the VM model, refinement to the C02 pure spec and the C16 window theorem; serialisation round trip) + acceptance oracle on the implementation + differential correspondence of builder bytes and runs",
    design="§5 C14"),
  'C15': dict(
    text="Proved: the refund arm's pushed deadline is read back by CHECK_TIMESTAMP_VERIFY as exactly created+timeout for every non-negative deadline, so by C16.1 the refund time condition is exactly t >= deadline and not ahead of the clock by the slack; a negative deadline reads back >= 2^(8 len - 1). "
